@@ -601,7 +601,16 @@ func (vm *VM) nextCall() bool {
 			for i = i - 1; i >= 0; i-- {
 				call = vm.calls[i]
 				if call.status == deferred {
-					vm.calls[i] = vm.calls[i+1]
+					// The registers of the deferred call are below the frame
+					// of the function that deferred it: swap them, as when
+					// the function returns, so that the deferred call runs
+					// above that frame and the frame is back where the
+					// caller expects the results.
+					owner := vm.calls[i+1]
+					if owner.cl.fn != nil {
+						vm.swapStack(&call.fp, &owner.fp, owner.cl.fn.NumReg)
+					}
+					vm.calls[i] = owner
 					vm.calls[i].status = panicked
 					// The panicked frame is now the top of the stack. If
 					// the deferred call is native, it is called below and
